@@ -492,18 +492,18 @@ def expected_requests(cmd, accts, bankid, brokerid, cli):
 
 def diff_key(prefix, want, got):
     """name the kind of difference between two request multisets"""
-    ident = lambda r: (r["kind"].replace("end", ""), r["acctid"])
-    wi, gi = sorted(map(ident, want)), sorted(map(ident, got))
-    wa, ga = sorted(r["acctid"] for r in want), sorted(r["acctid"] for r in got)
-    if wa != ga:
+    def ms(f, rs):
+        return sorted(canon(f(r)) for r in rs)
+    wa, ga = [r["acctid"] for r in want], [r["acctid"] for r in got]
+    if sorted(map(str, wa)) != sorted(map(str, ga)):
         missing = [a for a in wa if wa.count(a) > ga.count(a)]
         return prefix + (":account-missing" if missing else ":account-extra-or-duplicated")
-    if wi != gi or sorted((r["acctid"], r["accttype"]) for r in want) != sorted((r["acctid"], r["accttype"]) for r in got):
+    if ms(lambda r: [r["kind"].replace("end", ""), r["acctid"], r["accttype"]], want) != ms(lambda r: [r["kind"].replace("end", ""), r["acctid"], r["accttype"]], got):
         return prefix + ":wrong-account-type"
-    if sorted((r["acctid"], r["inst"]) for r in want) != sorted((r["acctid"], r["inst"]) for r in got):
+    if ms(lambda r: [r["acctid"], r["inst"]], want) != ms(lambda r: [r["acctid"], r["inst"]], got):
         return prefix + ":wrong-bank-or-broker-id"
-    dates = lambda r: (r["acctid"], (r["inctran"] or [None, None])[:2], r["dtstart"], r["dtend"], (r["incpos"] or [None])[0])
-    if sorted(map(canon, map(dates, want))) != sorted(map(canon, map(dates, got))):
+    dates = lambda r: [r["acctid"], (r["inctran"] or [None, None])[:2], r["dtstart"], r["dtend"], (r["incpos"] or [None])[0]]
+    if ms(dates, want) != ms(dates, got):
         return prefix + ":wrong-dates"
     return prefix + ":wrong-include-flags"
 
